@@ -22,9 +22,26 @@ class CallGraph:
         self._prop_names = prog.property_names()
         self._site_targets: Dict[tuple, List] = {}
         self._built = False
+        self._rc_cache: Dict[tuple, list] = {}
+        self._rc_busy: Set[tuple] = set()
 
     # -- helper: static class of a receiver expression ------------------------------------------
-    def receiver_classes(self, fi: Optional[FuncInfo], mod: Module, expr: ast.AST) -> List[ClassInfo]:
+    def receiver_classes(self, fi: Optional[FuncInfo], mod: Module, expr: ast.AST, _depth: int = 0) -> List[ClassInfo]:
+        k = (fi.key if fi is not None else None, id(expr))
+        if k in self._rc_cache:
+            return self._rc_cache[k]
+        if k in self._rc_busy or len(self._rc_busy) > 40:
+            return []
+        self._rc_busy.add(k)
+        try:
+            r = self._receiver_classes(fi, mod, expr)
+        finally:
+            self._rc_busy.discard(k)
+        if not self._rc_busy:
+            self._rc_cache[k] = r
+        return r
+
+    def _receiver_classes(self, fi: Optional[FuncInfo], mod: Module, expr: ast.AST) -> List[ClassInfo]:
         prog = self.prog
         cls = self._owner_class(fi)
         if isinstance(expr, ast.Name):
@@ -93,7 +110,7 @@ class CallGraph:
                     out.append(c)
         return _uniq(out)
 
-    def value_classes(self, fi: Optional[FuncInfo], mod: Module, value: ast.AST) -> List[ClassInfo]:
+    def value_classes(self, fi: Optional[FuncInfo], mod: Module, value: ast.AST, _depth: int = 0) -> List[ClassInfo]:
         """Classes of which ``value`` may be an instance (constructor calls only; conservative)."""
         cls = self._owner_class(fi)
         if isinstance(value, ast.Call):
@@ -106,6 +123,8 @@ class CallGraph:
                 pass
         if isinstance(value, ast.IfExp):
             return _uniq(self.value_classes(fi, mod, value.body) + self.value_classes(fi, mod, value.orelse))
+        if isinstance(value, (ast.Name, ast.Attribute)) and not _depth:
+            return self.receiver_classes(fi, mod, value, _depth + 1)
         return []
 
     # -- callable value sets ----------------------------------------------------------------------
